@@ -2108,8 +2108,9 @@ class WebDAVApp:
 
     def _get_resource_from_environ(self, request, environ):
         path_info = request.match_info["path_info"]
-        if not path_info.startswith("/"):
-            path_info = "/" + path_info
+        # Exactly one leading slash: posixpath.normpath() keeps two of them,
+        # and "//x/.." would then address the root directory without being "/".
+        path_info = "/" + path_info.lstrip("/")
         r = self.backend.get_resource(path_info)
         return (request.path, path_info, r)
 
